@@ -354,9 +354,10 @@ class Instance:
 
     def __eq__(self, other):
         if isinstance(other, self.__class__):
-            if hasattr(self, "_value") and hasattr(other, "_value"):
-                if self._value == other._value:
-                    return True
+            # Instance bytes without a number (broadcast, device, ...)
+            # have no "_value": they are equal if they are the same kind
+            return getattr(self, "_value", None) == getattr(
+                other, "_value", None)
 
         return False
 
